@@ -550,3 +550,182 @@ Example C04_config_roundtrip_premises_satisfiable :
   exists r, load ex_conf_cfg [] [(5, ex_obj6); (0, ex_obj_b)] = LOk r /\
             length (clients_by_name (fst r)) = 2%nat /\ Good ex_conf_cfg [] r.
 Proof. exact example_two_loaded. Qed.
+
+(** * Round 4: aghalg.SortedMap as implemented, and the runtime_sources switches *)
+From AGH Require Import Model.SortedMap Model.SubnetMap Proofs.SortedMap Proofs.SubnetMap Proofs.ClientSources.
+
+(** slices.BinarySearchFunc as written (midpoint loop with fuel) never runs out
+    of fuel and never indexes outside the slice, whatever the slice holds. *)
+Theorem C04_sortedmap_search_total : forall (K : Type) (cmp : K -> K -> comparison) keys t,
+  bsearch cmp keys t <> None.
+Proof. exact (@bsearch_total). Qed.
+Print Assumptions C04_sortedmap_search_total.
+
+(** The implementation (key slice + Go map; Set = binary search, overwrite or
+    insert; Del = binary search, remove one position; Clear) refines a finite
+    map with ordered iteration, for EVERY sequence of calls from the empty map,
+    repeated keys and keys equal to the current last one included, for every
+    comparator that is a strict total order whose zero is equality: no call
+    panics, the invariant (key slice strictly sorted; a key is in the slice
+    exactly when the map holds it) holds, and Range shows the sorted
+    association list the abstract operations build. *)
+Theorem C04_sortedmap_refines : forall (K V : Type) (cmp : K -> K -> comparison) (keq : K -> K -> bool) (zero : V),
+  (forall a b, keq a b = true <-> a = b) ->
+  (forall a b, cmp a b = Eq <-> a = b) ->
+  (forall a b, cmp b a = CompOpp (cmp a b)) ->
+  (forall a b c, cmp a b = Lt -> cmp b c = Lt -> cmp a c = Lt) ->
+  forall ops : list (smop K V),
+  exists m, smap_run cmp keq ops smap_new = SOk m /\ smap_inv cmp keq m /\
+            smap_all keq zero m = fm_run cmp keq ops [].
+Proof. exact (@sortedmap_refines). Qed.
+Print Assumptions C04_sortedmap_refines.
+
+(** ... hence the key slice is strictly sorted and free of duplicates after
+    every sequence of calls. *)
+Theorem C04_sortedmap_keys_strictly_sorted :
+  forall (K V : Type) (cmp : K -> K -> comparison) (keq : K -> K -> bool) (zero : V),
+  (forall a b, keq a b = true <-> a = b) ->
+  (forall a b, cmp a b = Eq <-> a = b) ->
+  (forall a b, cmp b a = CompOpp (cmp a b)) ->
+  (forall a b c, cmp a b = Lt -> cmp b c = Lt -> cmp a c = Lt) ->
+  forall (ops : list (smop K V)) m,
+  smap_run cmp keq ops smap_new = SOk m -> ksorted cmp (sm_keys m) /\ NoDup (sm_keys m).
+Proof. exact (@keys_strictly_sorted). Qed.
+Print Assumptions C04_sortedmap_keys_strictly_sorted.
+
+(** Range visits every present key exactly once, in order, with its value. *)
+Theorem C04_sortedmap_range_each_once :
+  forall (K V : Type) (cmp : K -> K -> comparison) (keq : K -> K -> bool) (zero : V),
+  (forall a b, cmp a b = Eq <-> a = b) ->
+  forall m : smap K V, smap_inv cmp keq m ->
+  map fst (smap_all keq zero m) = sm_keys m /\ ksorted cmp (map fst (smap_all keq zero m)) /\
+  NoDup (map fst (smap_all keq zero m)) /\
+  forall k v, In (k, v) (smap_all keq zero m) <-> smap_get keq k m = Some v.
+Proof. exact (@range_each_once). Qed.
+Print Assumptions C04_sortedmap_range_each_once.
+
+(** A Range whose callback stops at the first pair it likes finds the first
+    such pair in order (index.findByIP, index.clashesSubnet). *)
+Theorem C04_sortedmap_range_stops_at_first :
+  forall (K V : Type) (keq : K -> K -> bool) (zero : V) (p : K -> V -> bool) (m : smap K V),
+  smap_range keq zero (fun k v (a : option (K * V)) => if p k v then (Some (k, v), false) else (a, true)) m None =
+  List.find (fun kv => p (fst kv) (snd kv)) (smap_all keq zero m).
+Proof. exact (@range_find). Qed.
+Print Assumptions C04_sortedmap_range_stops_at_first.
+
+(** Map laws of the implementation itself: Del k; Get k = none, and the others. *)
+Theorem C04_sortedmap_get_after_del :
+  forall (K V : Type) (cmp : K -> K -> comparison) (keq : K -> K -> bool),
+  (forall a b, keq a b = true <-> a = b) ->
+  forall k (m m' : smap K V), smap_del cmp keq k m = SOk m' ->
+  smap_get keq k m' = None /\ forall k', k <> k' -> smap_get keq k' m' = smap_get keq k' m.
+Proof.
+  exact (fun K V cmp keq Hk k m m' E =>
+           conj (get_del_eq cmp keq k m m' E) (fun k' Hne => get_del_ne cmp keq Hk k k' m m' Hne E)).
+Qed.
+Print Assumptions C04_sortedmap_get_after_del.
+
+Theorem C04_sortedmap_get_after_set :
+  forall (K V : Type) (cmp : K -> K -> comparison) (keq : K -> K -> bool),
+  (forall a b, keq a b = true <-> a = b) ->
+  forall k v (m m' : smap K V), smap_set cmp keq k v m = SOk m' ->
+  smap_get keq k m' = Some v /\ forall k', k <> k' -> smap_get keq k' m' = smap_get keq k' m.
+Proof.
+  exact (fun K V cmp keq Hk k v m m' E =>
+           conj (get_set_eq cmp keq Hk k v m m' E) (fun k' Hne => get_set_ne cmp keq Hk k k' v m m' Hne E)).
+Qed.
+Print Assumptions C04_sortedmap_get_after_set.
+
+(** index.subnetToUID: replaying on the implementation's structure, with
+    subnetCompare, the Set / Del calls that ANY registry history makes (clients
+    that list a subnet twice included) never panics, keeps the key slice
+    strictly sorted, and Range shows exactly the registry model's subnet list;
+    index.add / index.remove / index.clashesSubnet / index.findByIP over the
+    structure compute what the registry model computes. *)
+Theorem C04_subnet_map_refines : forall cfg ops,
+  exists m, pm_run (history_calls cfg ops empty_index) pm_new = SOk m /\
+            sub_rel m (run cfg ops empty_index).
+Proof. exact subnet_map_refines. Qed.
+Print Assumptions C04_subnet_map_refines.
+
+Theorem C04_subnet_map_index_ops : forall c ix m, sub_rel m ix ->
+  (exists m', pm_add_keys (c_subnets c) (c_uid c) m = SOk m' /\ sub_rel m' (index_add c ix)) /\
+  (exists m', pm_del_keys (c_subnets c) m = SOk m' /\ sub_rel m' (index_remove c ix)) /\
+  pm_clash (c_subnets c) (c_uid c) m = clash_key sm_get (c_subnets c) (c_uid c) (subnet_to ix) /\
+  forall ip, find_by_ip ix ip =
+             match zget ip (ip_to ix) with Some u => Some u | None => pm_find_ip (fst ip) m end.
+Proof.
+  exact (fun c ix m H =>
+           conj (index_add_refines c ix m H)
+             (conj (index_remove_refines c ix m H)
+                (conj (clashes_subnet_refines c ix m H) (fun ip => find_by_ip_refines ix m ip H)))).
+Qed.
+Print Assumptions C04_subnet_map_index_ops.
+
+(** No ghost subnet: after any history, every pair Range of the
+    implementation's map shows is a subnet of a STORED client that lists it,
+    and no subnet is shown twice. *)
+Theorem C04_no_ghost_subnet : forall cfg ops m,
+  pm_run (history_calls cfg ops empty_index) pm_new = SOk m ->
+  NoDup (map fst (pm_all m)) /\
+  forall p u, In (p, u) (pm_all m) ->
+    exists c, deref (run cfg ops empty_index) u = Some c /\ In p (c_subnets c) /\ c_uid c = u.
+Proof. exact no_ghost_subnet. Qed.
+Print Assumptions C04_no_ghost_subnet.
+
+Example C04_subnet_map_premises_satisfiable :
+  history_calls dup_cfg dup_ops empty_index =
+    [MSet p10_1 1; MSet p10_1 1; MDel p10_1; MDel p10_1; MSet p10 2; MSet p10 2;
+     MSet p10_1 3; MSet p10_1 3; MDel p10; MDel p10; MSet ([10; 2; 0; 0], 16) 2] /\
+  (exists m, pm_run (history_calls dup_cfg dup_ops empty_index) pm_new = SOk m /\
+             sm_keys m = [p10_1; ([10; 2; 0; 0], 16)] /\
+             pm_all m = [(p10_1, 3); (([10; 2; 0; 0], 16), 2)] /\
+             pm_find_ip [10; 0; 9; 9] m = None /\ pm_find_ip [10; 1; 9; 9] m = Some 3).
+Proof. exact dup_history. Qed.
+
+(** clientsContainer.Init: the clients.runtime_sources switches do not take
+    part in matching persistent clients.  For any two settings of the five
+    switches (and of the hosts container) and the same DHCP server, Init loads
+    the same registry, every request is attributed to the same client and gets
+    the same effective settings. *)
+Theorem C04_sources_do_not_affect_persistent_lookup :
+  forall cfg known s s' server hh hh' objs r id a g,
+  fst (init cfg known s server hh objs) = fst (init cfg known s' server hh' objs) /\
+  container_lookup (snd (init cfg known s server hh objs)) r id a =
+    container_lookup (snd (init cfg known s' server hh' objs)) r id a /\
+  container_acf (snd (init cfg known s server hh objs)) r id a g =
+    container_acf (snd (init cfg known s' server hh' objs)) r id a g.
+Proof.
+  exact (fun cfg known s s' server hh hh' objs r id a g =>
+           conj (sources_do_not_affect_load cfg known s s' server hh hh' objs)
+             (conj (sources_do_not_affect_persistent_lookup s s' server hh hh' r id a)
+                   (sources_do_not_affect_settings s s' server hh hh' r id a g))).
+Qed.
+Print Assumptions C04_sources_do_not_affect_persistent_lookup.
+
+(** Whatever the switches, an initialised container attributes a request by
+    the full precedence, the DHCP SERVER's leases at level 4. *)
+Theorem C04_init_resolves_by_precedence : forall cfg known s server hh objs r sc id a,
+  init cfg known s server hh objs = (LOk r, sc) ->
+  resolves (fst r) server id a (container_lookup sc r id a).
+Proof. exact init_resolves. Qed.
+Print Assumptions C04_init_resolves_by_precedence.
+
+Theorem C04_mac_client_found_any_sources : forall s server hh r id a m u,
+  Inv (fst r) ->
+  no_cid (fst r) id -> no_ip (fst r) a -> no_cidr (fst r) a ->
+  server a = Some m -> owner_of (fst r) c_macs m u ->
+  container_lookup (init_conf s server hh) r id a = Some u.
+Proof. exact mac_client_found_any_sources. Qed.
+Print Assumptions C04_mac_client_found_any_sources.
+
+Example C04_mac_client_sources_off_premises_satisfiable :
+  exists r sc,
+    init ex_conf_cfg [] all_off ex_server false [(0, ex_kid)] = (LOk r, sc) /\
+    sc_runtime_dhcp sc = false /\
+    container_lookup sc r [] ([192;168;1;50], []) = Some 3 /\
+    (exists st, container_acf sc r [] ([192;168;1;50], []) ex_global = Some st /\
+                s_client_name st = [107;105;100] /\ s_parental st = true) /\
+    container_lookup sc r [] ([192;168;1;51], []) = None /\
+    no_cid (fst r) [] /\ no_ip (fst r) ([192;168;1;50], []) /\ no_cidr (fst r) ([192;168;1;50], []).
+Proof. exact example_mac_client_sources_off. Qed.
